@@ -42,8 +42,13 @@ pub fn c13(opts: &Opts) -> Report {
                 4 => format!("{{!{}}}", print_ops(&wf_pipeline(&mut ctx.rng, 3))),
                 _ => assemble(&[Seg::Sec(wf_pipeline(&mut ctx.rng, 4))]).0,
             };
-            let body = gens::text(&mut ctx.rng, 5);
-            let input = format!("{}{}", body, ws_tail(&mut ctx.rng));
+            let body = match ctx.rng.below(8) {
+                0 => "a\r\nb\r\nc".to_string(),                 // interior CR LF must survive every input route
+                1 => ctx.rng.pick(&["-", "--", "-x", "- "]).to_string(),   // looks like an option / the stdin placeholder
+                2 => "line one\r\n\r\nline three\r".to_string(),
+                _ => gens::text(&mut ctx.rng, 5),
+            };
+            let input = if body.starts_with('-') && body.len() <= 2 && ctx.rng.chance(1, 2) { body.clone() } else { format!("{}{}", body, ws_tail(&mut ctx.rng)) };
             if !arg_safe(&tpl) || !arg_safe(&input) { return; }
             let debug = ctx.rng.chance(1, 4); let quiet = ctx.rng.chance(1, 4); let validate = ctx.rng.chance(1, 6);
             let tmode = ctx.rng.below(10);   // 0-5 arg, 6-7 file, 8 unreadable file, 9 both
@@ -60,7 +65,7 @@ pub fn c13(opts: &Opts) -> Report {
                 _ => { std::fs::write(&tfile, &tpl).unwrap(); cmd.arg("-t").arg(&tfile); (format!("a {}", hex(&tpl)), true) }
             };
             let (isrc, iboth, stdin_data): (String, bool, String) = match imode {
-                0..=3 => (format!("a {}", hex(&input)), false, String::new()),
+                0..=3 => (format!("a {}", hex(&input)), false, if ctx.rng.chance(1, 2) { "STDIN-DATA\n".to_string() } else { String::new() }),
                 4..=6 => ("n".into(), false, input.clone()),
                 7 => { std::fs::write(&ifile, &input).unwrap(); cmd.arg("-f").arg(&ifile); (format!("f {}", hex(&input)), false, String::new()) }
                 8 => { cmd.arg("-f").arg(dir_ref.join("does-not-exist-either")); ("x".into(), false, String::new()) }
